@@ -141,6 +141,9 @@ func runReport(prop string, t *simrt.Tape, keep bool) simrt.Outcome {
 	cur := time.Duration(0)
 	if t.Prob(1, 2) && prop == "C12" {
 		cur = time.Duration(1 + t.Choose(1000000)) // a positive first bound: C12's precondition (no latency below it) is enforced below
+		if t.Prob(1, 5) {
+			cur = -cur // "any increasing list": a first bound below zero is one (every latency is then above it)
+		}
 	}
 	for i := range bounds {
 		bounds[i] = cur
@@ -802,11 +805,19 @@ func checkBucketSpec(r *run, t *simrt.Tape) {
 	var parts []string
 	cur := time.Duration(0)
 	zeroFirst := t.Prob(1, 2)
+	negFirst := !zeroFirst && t.Prob(1, 6)
 	for i := 0; i < nb; i++ {
 		u := unitForms[t.Choose(len(unitForms))]
 		if i == 0 && zeroFirst {
 			parts = append(parts, []string{"0", "0s", "0ms"}[t.Choose(3)])
 			want = append(want, 0)
+			continue
+		}
+		if i == 0 && negFirst {
+			// a first bound below zero: the given bounds are preserved and nothing is added (zero is covered already)
+			k := int64(1 + t.Choose(999))
+			parts = append(parts, "-"+strconv.FormatInt(k, 10)+u.suffix)
+			want = append(want, -time.Duration(k)*u.unit)
 			continue
 		}
 		k := int64(1 + t.Choose(999)) // (64 bits: a count of nanoseconds does not fit an int on 32-bit platforms)
@@ -832,7 +843,7 @@ func checkBucketSpec(r *run, t *simrt.Tape) {
 		spec += pad() + p + pad()
 	}
 	spec += "]"
-	if !zeroFirst {
+	if !zeroFirst && !negFirst {
 		want = append([]time.Duration{0}, want...)
 	}
 	var bs vegeta.Buckets
